@@ -62,9 +62,27 @@ Fixpoint ops_check (r : reserve) (xs : list (fop * outcome * Z)) : option reserv
       else None
   end.
 
+Definition event_eqb (a b : event) : bool :=
+  match a, b with
+  | EvDeposit v x, EvDeposit v' x' => (v =? v') && (x =? x')
+  | EvPayFee v x, EvPayFee v' x' => (v =? v') && (x =? x')
+  | EvBurn x, EvBurn x' => x =? x'
+  | _, _ => false
+  end.
+Fixpoint events_eqb (a b : list event) : bool :=
+  match a, b with
+  | [], [] => true
+  | x :: a', y :: b' => event_eqb x y && events_eqb a' b'
+  | _, _ => false
+  end.
+
+(* observed on the receipt: fee_source, fee_destination, the finalisation events (tail of the
+   application events, vaults mapped to the model's numbering), the change of the rewards vault balance
+   and of proposer_rewards[current leader] *)
 Inductive dist_obs :=
 | DObsPanic
-| DObs (payments : list (Z * Z)) (proposer validator burn : Z) (royalties : list (Z * Z)).
+| DObs (payments : list (Z * Z)) (proposer validator burn : Z) (royalties : list (Z * Z))
+       (evs : list event) (rewards_vault_delta leader_reward_delta : Z).
 
 Fixpoint lookup_pay (k : Z) (l : list (Z * Z)) : Z :=
   match l with [] => 0 | (k', v) :: l' => if k' =? k then v else lookup_pay k l' end.
@@ -116,9 +134,12 @@ Definition check (c : case) : bool :=
         end in
       match distribute sh s free ok, o with
       | DPanic _, DObsPanic => true
-      | DOk d, DObs pay pr va bu roy =>
+      | DOk d, DObs pay pr va bu roy evs rv lr =>
           cost_ok && pay_eqb (d_payments d) pay && (d_proposer d =? pr) && (d_validator d =? va)
           && (d_burn d =? bu) && zz_eqb (d_royalties d) roy
+          && events_eqb (fee_events s d) evs
+          && (lookup_pay REWARDS_VAULT (vault_writes d) =? rv)
+          && (match proposer_reward (Some 0) d with Some (_, x) => x | None => 0 end =? lr)
       | _, _ => false
       end
   end.
